@@ -36,3 +36,16 @@ void orc_cb_final_check(const char *what);	/* every callback ran exactly once */
 int orc_ncb(void);
 int orc_cb_count(int cb);
 #endif
+
+/* ---- defer_rcu oracle ---- */
+#ifndef SCEN_ORACLE_DEFER_H
+#define SCEN_ORACLE_DEFER_H
+void orc_defer_queue(int thread, int fn, void *arg);	/* BEFORE defer_rcu() */
+void orc_defer_queued(int thread);			/* AFTER defer_rcu() returned */
+void orc_defer_invoked(int fn, void *arg);		/* inside the deferred function */
+int orc_defer_pending(int thread);			/* queued but not yet invoked (own) */
+int orc_defer_mark(int thread);				/* BEFORE a barrier: returns a mark */
+void orc_defer_check_all(int mark, const char *what);	/* AFTER rcu_defer_barrier() */
+void orc_defer_check_thread(int thread, int mark, const char *what);
+int orc_defer_total(void);
+#endif
